@@ -257,8 +257,13 @@ func runCheck(prop, tier string) int {
 	}
 	loadS := time.Since(start).Seconds()
 	native := NewNativeRunner(*flagRepo, *flagHarness)
-	native.race = spec.Race
 	defer native.Close()
+	var nativeRace *NativeRunner // built lazily: only candidates that do not reproduce sequentially are re-run under -race
+	defer func() {
+		if nativeRace != nil {
+			nativeRace.Close()
+		}
+	}()
 
 	// encoder conformance preamble
 	confN, confBad, confErr := runConformanceWith(sh, native, conformLimit(tier))
@@ -387,7 +392,7 @@ func runCheck(prop, tier string) int {
 			cands = append(cands, cand{r.unit, f, fingerprint(prop, f)})
 		}
 		for i, w := range r.witnesses {
-			if len(witnessFiles) < witnessCap(tier) {
+			if len(witnessFiles) < witnessCap(tier) && true {
 				witnessFiles = append(witnessFiles, ReplayFile{Property: prop, Entry: r.unit.Entry, Args: r.unit.Args, Model: w, Kind: "witness"})
 				witnessReached = append(witnessReached, r.witReached[i])
 			}
@@ -455,6 +460,19 @@ func runCheck(prop, tier string) int {
 			if reproduces(files[i], nr) {
 				confirmed = i
 				break
+			}
+		}
+		if confirmed < 0 && spec.Race {
+			// a write into shared memory that leaves no lasting trace (scratch state, write-and-restore):
+			// the same calls from several goroutines under the race detector
+			if nativeRace == nil {
+				nativeRace = NewNativeRunner(*flagRepo, *flagHarness)
+				nativeRace.race = true
+			}
+			rres, rerr := nativeRace.Run(files[:1])
+			if rerr == nil && len(rres) == 1 && reproduces(files[0], rres[0]) {
+				confirmed = 0
+				nres = rres
 			}
 		}
 		if confirmed < 0 {
@@ -698,7 +716,7 @@ func reproduces(f ReplayFile, nr NativeResult) bool {
 	case "assert":
 		// any failed assertion (or panic) of the same harness on the same input is a confirmed
 		// failure of the real code; the executor's predicted label need not be the first to trip
-		return strings.HasPrefix(nr.Status, "fail label=") || strings.HasPrefix(nr.Status, "panic msg=")
+		return strings.HasPrefix(nr.Status, "fail label=") || strings.HasPrefix(nr.Status, "panic msg=") || strings.HasPrefix(nr.Status, "race msg=")
 	case "panic":
 		return strings.HasPrefix(nr.Status, "panic msg=") || strings.HasPrefix(nr.Status, "crash")
 	case "hang":
